@@ -169,6 +169,7 @@ const (
 	exSetError     = 42 // ctx.SetError(options.err)                  args: err
 	exLoopHandlers = 43 // the exit-handler loop
 	exHandler      = 44 // handler(e, ctx)
+	exRunHandler   = 48 // e.runExitHandler(handler, ctx)
 	exChainExit    = 45 // e.sc.exit(ctx)
 	exStoreExited  = 46 // atomic.StoreUint32(&e.exited, v)           args: v
 	exRefurbish    = 47 // e.sc.RefurbishContext(ctx)
@@ -202,7 +203,9 @@ func init() {
 		"ctx.SetError": {Tag: exSetError, Keep: []int{0}}, "e.sc.exit": {Tag: exChainExit},
 		"atomic.StoreUint32":    {Tag: exStoreExited, Keep: []int{1}},
 		"e.sc.RefurbishContext": {Tag: exRefurbish},
-		"recover":               {Tag: chRecover, Ret: hint{"panic_val", "iface"}}}
+		"recover":               {Tag: chRecover, Ret: hint{"panic_val", "iface"}},
+		"e.runExitHandler":      {Tag: exRunHandler},
+		"handler":               {Tag: exHandler, Ret: hint{"handler_err", "iface"}}}
 	exit := func(name string, t target) target {
 		t.Dir, t.Func, t.Name, t.Hints = "core/base", "SentinelEntry.Exit", name, exitHints
 		acts := map[string]act{}
@@ -215,6 +218,11 @@ func init() {
 		t.Acts = acts
 		return t
 	}
+	runHandler := func(name string, t target) target {
+		t = exit(name, t)
+		t.Func = "SentinelEntry.runExitHandler"
+		return t
+	}
 	targets = append(targets,
 		// ---- SentinelEntry.Exit: options, nil context, everything else inside the Once ----
 		exit("entry_Exit", target{LoopMarks: map[int]act{1: {Tag: exLoopOpts}}}),
@@ -223,6 +231,9 @@ func init() {
 		// ONE iteration of the handler loop: a handler's error does not stop the loop
 		exit("entry_Exit_handler_step", target{Lit: 1, LoopBody: 1, LoopAny: true, CanonIn: true,
 			Acts: map[string]act{"<range>": {Tag: exHandler, Ret: hint{"handler_err", "iface"}}}}),
+		// runExitHandler (a9e6cc9): defer a recover of its own, then the handler; the deferred function
+		runHandler("entry_runExitHandler", target{}),
+		runHandler("entry_runExitHandler_recover", target{Lit: 1}),
 		// its deferred function: recover, exited := 1, context back to the pool - in that order
 		exit("entry_Exit_deferred", target{Lit: 2}),
 		// ---- api.entry ----
